@@ -30,8 +30,15 @@ func FormatU128(v city.U128) string {
 }
 
 // readBlock reads next compressed data into raw and decompresses into data.
-func (r *Reader) readBlock() error {
+func (r *Reader) readBlock() (err error) {
 	r.pos = 0
+	defer func() {
+		if err != nil {
+			// Never hand out stale or unverified bytes on a Read that
+			// follows a failure.
+			r.data = r.data[:0]
+		}
+	}()
 
 	_ = r.header[headerSize-1]
 	if _, err := io.ReadFull(r.reader, r.header); err != nil {
